@@ -2113,11 +2113,19 @@ def _c19_location(seed):
     for _ in range(rng.randint(0, 4)):
         k = rng.random()
         if k < 0.35:
-            loc.longitude = rng.uniform(-180, 180)
+            v = rng.uniform(-200, 200)
+            loc.longitude = v
             hist.append("longitude")
+            if loc.longitude != max(-180.0, min(180.0, v)):
+                return {"clause": "Location.longitude = %r stores %r (a longitude is kept within ±180 and "
+                                  "otherwise as given)" % (v, loc.longitude), "seed": seed, "history": hist}
         elif k < 0.6:
-            loc.latitude = rng.uniform(-60, 60)
+            v = rng.uniform(-100, 100)
+            loc.latitude = v
             hist.append("latitude")
+            if loc.latitude != max(-90.0, min(90.0, v)):
+                return {"clause": "Location.latitude = %r stores %r (a latitude is kept within ±90 and "
+                                  "otherwise as given)" % (v, loc.latitude), "seed": seed, "history": hist}
         elif k < 0.8:
             loc.timezone = rng.choice(tzs)
             hist.append("timezone")
